@@ -3,6 +3,8 @@ mod fastload;
 pub mod poke;
 mod screenshot;
 mod snapshot;
+#[cfg(rustzx_verif)]
+mod verif;
 
 use crate::{
     error::RomLoadError,
